@@ -88,7 +88,11 @@ alone_decode(void *coder_ptr, const lzma_allocator *allocator,
 				d |= d >> 16;
 				++d;
 
-				if (d != coder->options.dict_size)
+				// Zero would pass the above test due to
+				// integer wraparound but it isn't 2^n or
+				// 2^n + 2^(n-1).
+				if (d != coder->options.dict_size
+						|| coder->options.dict_size == 0)
 					return LZMA_FORMAT_ERROR;
 			}
 
